@@ -275,6 +275,35 @@ func extractC14() *lean {
 		})
 	}
 	l.def("notifyNowRetriesWrites", "List String", leanStrList(retriesWrites), retriesWrites)
+	// notifyNow's write-back: does the WriteShelf closure return without writing when the key is gone?
+	wbSkips := false
+	if fd := funcDecl(nf, "notifyNow"); fd != nil {
+		ast.Inspect(fd, func(n ast.Node) bool {
+			ce, ok := n.(*ast.CallExpr)
+			if !ok || exprString(ce.Fun) != "p.db.WriteShelf" || len(ce.Args) < 3 {
+				return true
+			}
+			fl, ok := ce.Args[2].(*ast.FuncLit)
+			if !ok {
+				return true
+			}
+			for _, st := range fl.Body.List {
+				if c14CallsIn(st, "p.writeEvent") > 0 {
+					break
+				}
+				if is, ok := st.(*ast.IfStmt); ok && strings.Contains(c14Expr(is.Cond), "stoabs.ErrKeyNotFound") &&
+					(c14CallsIn(is, "writer.Get") > 0 || c14CallsIn(is, "p.readEvent") > 0) {
+					for _, b := range is.Body.List {
+						if r, ok := b.(*ast.ReturnStmt); ok && len(r.Results) == 1 && exprString(r.Results[0]) == "nil" {
+							wbSkips = true
+						}
+					}
+				}
+			}
+			return true
+		})
+	}
+	l.def("writeBackSkipsGone", "Bool", map[bool]string{true: "true", false: "false"}[wbSkips], wbSkips)
 	var runConds []string
 	runNotifyInLoop := 0
 	if fd := funcDecl(nf, "Run"); fd != nil {
